@@ -540,6 +540,9 @@ package scipipe
 //@   atcall (*Task).executeCommand holds-cores[C06]: held(t.workflow) == old(held(t.workflow)) + ite(t.cores > 0, t.cores, 0)
 //@   atcall fieldcall:Task.CustomExecute holds-cores[C06]: held(t.workflow) == old(held(t.workflow)) + ite(t.cores > 0, t.cores, 0)
 //@   atcall (*Task).finalizePaths only-after-success-and-check[C01,C09]: cmdSucceeded(t) && allChecked(t)
+// An output never becomes visible at its final path before its audit record is on disk: otherwise a kill in between leaves
+// an output that the resumed run adopts (skips the task) without any provenance.
+//@   atcall (*Task).finalizePaths audit-record-on-disk-before-the-outputs-appear[C10,C11]: forall o string :: o in t.OutIPs ==> effCreated[t.OutIPs[o].path + ".audit.json"]
 //@   atcall (*Workflow).DecConcurrentTasks release-after-finalize[C06]: allRenamed(t)
 //@   atsend done-only-when-complete[C05,C09]: $ch == t.Done && (old(anyOutExists(t)) || (cmdSucceeded(t) && allRenamed(t) && held(t.workflow) == old(held(t.workflow))))
 
